@@ -1,7 +1,7 @@
 (* C14 — CTCP encoding round-trips and automatic replies obey the reply discipline.
    Only statements here; proofs live in Proofs/CtcpProofs.v, the model in Model/Ctcp.v,
    the property's own definitions (ctcp_message, not_ctcp_cause, answers) in Spec/CtcpSpec.v. *)
-Require Import Bytes Names GoUpper Ctcp CtcpSpec CtcpProofs CtcpTableProofs.
+Require Import Bytes Names GoUpperAscii Ctcp CtcpSpec CtcpProofs CtcpTableProofs.
 
 (* Decoding a PRIVMSG or NOTICE whose text was produced by the encoder returns the same
    command and text - for every command made of A-Z/0-9 and EVERY text (empty, with
